@@ -73,15 +73,18 @@ theorem go_hit (cfg : Cfg) (now : Int) (c : Coll) (query proj : Val) (update : O
          | (c3, .error e) => (c3, .error e)
          | (c3, .ok _) => (c3, .ok old))
       | some u =>
-        (match applyUpdateColl cfg now c2 (.doc [("_id", tid)]) u upsert false with
-         | (c3, .error e) => (c3, .error e)
-         | (c3, .ok res) =>
-           if after then
-             findOneColl now c3
-               (match res.upserted with
-                | some id => Val.doc [("_id", id)]
-                | none => Val.doc [("_id", tid)]) proj none
-           else (c3, .ok old)) := by
+        (match findAndModify.projOk proj with
+         | .error e => (c2, .error e)
+         | .ok () =>
+           (match applyUpdateColl cfg now c2 (.doc [("_id", tid)]) u upsert false with
+            | (c3, .error e) => (c3, .error e)
+            | (c3, .ok res) =>
+              if after then
+                findOneColl now c3
+                  (match res.upserted with
+                   | some id => Val.doc [("_id", id)]
+                   | none => Val.doc [("_id", tid)]) proj none
+              else (c3, .ok old))) := by
   unfold findAndModify.go
   rw [h1]
   simp only [hid, Option.getD_some]
@@ -93,8 +96,13 @@ theorem go_hit (cfg : Cfg) (now : Int) (c : Coll) (query proj : Val) (update : O
     cases r <;> rfl
   | some u =>
     simp only
-    rcases applyUpdateColl cfg now c2 (.doc [("_id", tid)]) u upsert false with ⟨c3, r⟩
-    cases r <;> rfl
+    cases findAndModify.projOk proj with
+    | error e => rfl
+    | ok x =>
+      cases x
+      simp only
+      rcases applyUpdateColl cfg now c2 (.doc [("_id", tid)]) u upsert false with ⟨c3, r⟩
+      cases r <;> rfl
 
 theorem findAndModify_go (cfg : Cfg) (now : Int) (c c' : Coll) (query proj : Val)
     (update : Option Val) (upsert : Bool) (sort : Option SortSpec) (after : Bool)
@@ -105,7 +113,9 @@ theorem findAndModify_go (cfg : Cfg) (now : Int) (c c' : Coll) (query proj : Val
   split at h
   · split at h
     · cases h
-    · exact h
+    · split at h
+      · cases h
+      · exact h
   · exact h
 
 theorem go_hit_err (cfg : Cfg) (now : Int) (c : Coll) (query proj : Val) (update : Option Val)
@@ -309,6 +319,12 @@ theorem fam_update_core (cfg : Cfg) (now : Int) (c c' : Coll) (fs : Fields) (pro
   | ok o =>
     rw [hcp] at hr2
     rw [go_hit cfg now c _ proj (some u) upsert sort after c c tfs tid (some o) hr1 hid' hr2] at hgo
+    dsimp only at hgo
+    have hpo : findAndModify.projOk proj = .ok () := by
+      cases hx : findAndModify.projOk proj with
+      | error ep => rw [hx] at hgo; cases hgo
+      | ok x => cases x; rfl
+    rw [hpo] at hgo
     dsimp only at hgo
     rcases hup : applyUpdateColl cfg now c (.doc [("_id", tid)]) u upsert false with ⟨c3, r⟩
     rw [hup] at hgo
